@@ -26,6 +26,10 @@ GEN_AUDIT += ["Dashu.Audit.C10F32"]
 # comparison as fall-back) follows the mode definitions from (LIBM) alone, no CoarseSound oracle hypothesis left
 GEN_PROPS += ["Dashu.Props.C10Libm"]
 GEN_AUDIT += ["Dashu.Audit.C10Libm"]
+# round 8: the third f32 estimator (Repr::digits_lb) as a concrete function meets DlbSound from (LIBM) alone; all three oracle
+# hypotheses of the float theorems discharged together; link to C11's kernel fSubUlp_le (sub_ulp below ulp, no oracle hypothesis)
+GEN_PROPS += ["Dashu.Props.C10Dlb"]
+GEN_AUDIT += ["Dashu.Audit.C10Dlb"]
 
 BASES = [2, 3, 10, 16, 36]
 MODES = "ZAUDEH"
@@ -583,7 +587,13 @@ REFINED = ["Round::round_low_part x6 (regenerated, Props/GenRound)", "Round::rou
            "digits_ub with log2_bounds of significand and base = their models up to 2^30 bits / 2^24+1 digits, exact count beyond; equal to "
            "the source's estimators on the region: coarseLibm_eq, dubLibm_eq) meet CoarseSound / DubSound from (LIBM) alone "
            "(estimators_sound_libm), hence FBig::trunc / floor / ceil / round / to_int, the to_int flag contract and repr_round hold for "
-           "THESE estimators without oracle hypotheses (fbig_int_roundings_libm, to_int_contract_libm, repr_round_contract_libm)"]
+           "THESE estimators without oracle hypotheses (fbig_int_roundings_libm, to_int_contract_libm, repr_round_contract_libm)",
+           "Repr::digits_lb as a concrete function (`dlbLibm`: digits_lb with log2_bounds of significand and base = their models up to "
+           "2^30 bits / 2^21 digits, exact count beyond; = the source's estimator on the region: dlbLibm_eq) meets DlbSound from (LIBM) "
+           "alone (Props/C10Dlb.dlb_sound_libm); all three oracle hypotheses CoarseSound / DubSound / DlbSound hold together for the "
+           "concrete estimators and digits_lb <= digits <= digits_ub for EVERY significand (all_estimators_sound_libm, "
+           "env_oracles_sound_libm for a series context Env of C11 / C03); FBig::sub_ulp with this digits_lb is below ulp "
+           "(sub_ulp_below_ulp_libm, link to C11's Proofs/Trans/Series.fSubUlp_le by import)"]
 FRONTIER = ["round_fract coarse test for precision > 2^24 digits (`precision as f32` rounds): no theorem. Reason: with relative-error "
             "reasoning the budget is exactly exhausted at first order - the ADJUST factor of log2_bounds_large gives 4u, the two "
             "roundings inside it, the sum `lb + 0.999` and the product `b_ub * k` take u each, so the additional rounding of k (u) is "
@@ -608,7 +618,11 @@ FRONTIER = ["round_fract coarse test for precision > 2^24 digits (`precision as 
             "hypothesis) and both oracle hypotheses discharged for the concrete estimators "
             "(estimators_sound_libm -> fbig_int_roundings_libm, to_int_contract_libm, repr_round_contract_libm); the concrete estimators "
             "are clamped (undecided test for k > 2^24, exact digit count beyond 2^30 bits / 2^24+1 digits): outside the region they do "
-            "not describe the code - that part is the first FRONTIER entry",
+            "not describe the code - that part is the first FRONTIER entry. Round 8: the third estimator too (dlbLibm, "
+            "Props/C10Dlb.dlb_sound_libm / all_estimators_sound_libm; sub_ulp_below_ulp_libm links C11's fSubUlp_le). Open here: "
+            "the OTHER side of digits_lb (DlbTight: at most cS digits below the count, needed by C11's expLoop_bound / step bounds) "
+            "has no f32 theorem, so C11's expLoop_stage_error cannot yet be instantiated non-vacuously at dlbLibm; the remaining "
+            "Est fields of C11 (logQuot, powGuard, log2Floor, belowInvBase, tooLarge, intDigits, floorLog2) have no f32 model",
             "machine integers: exponents / precisions are unbounded Int / Nat in the model; isize / usize overflow is outside every "
             "theorem and is covered by the E1 generator only (the one defect it found, exponent isize::MIN negated with overflow, is repaired in /repo 7e1bdaf: `unsigned_abs`)"]
 THEOREMS = ["Dashu.Props.C10." + t for t in (
@@ -638,7 +652,9 @@ THEOREMS = ["Dashu.Props.C10." + t for t in (
     "digits_estimates_enclose_libm").split()] + [
     "Dashu.Props.C10Libm." + t for t in
     "round_fract_coarse_irrelevant_libm round_fract_follows_mode_libm round_fract_contract_libm coarseLibm_eq dubLibm_eq "
-    "estimators_sound_libm fbig_int_roundings_libm to_int_contract_libm repr_round_contract_libm".split()]
+    "estimators_sound_libm fbig_int_roundings_libm to_int_contract_libm repr_round_contract_libm".split()] + [
+    "Dashu.Props.C10Dlb." + t for t in
+    "dlbLibm_eq dlb_sound_libm all_estimators_sound_libm env_oracles_sound_libm sub_ulp_below_ulp_libm".split()]
 EXPLANATION = ("Lean theorems, for every base >= 2, every precision and all integers: the regenerated six mode tables composed with the "
                "exact half comparison (round_fract, round_ratio) return the adjustment the mode's definition names; repr_round / "
                "with_precision satisfy the rounding contract over Rat; trunc+fract = x, split_at_point = (trunc, fract) and "
